@@ -448,6 +448,35 @@ def _perm(items, seed):
     return items
 
 
+def _vary_objs(v, rnd):
+    """computation-preserving respelling of parameter-object definitions: kwargs key order, ignored arguments
+    (verbose/debug), default-valued arguments spelled or omitted"""
+    if isinstance(v, dict) and 'class' in v:
+        kw = {k: _vary_objs(x, rnd) for k, x in (v.get('kwargs') or {}).items()}
+        cname = v['class'].split('.')[-1]
+        ign = {'PObj': 'verbose', 'PDef': 'debug'}.get(cname)
+        if ign:
+            if rnd.random() < 0.5:
+                kw[ign] = rnd.random() < 0.5
+            else:
+                kw.pop(ign, None)
+        for dk, dv in A.OBJ_DEFAULTS.get(cname, {}).items():
+            if dk in kw and kw[dk] == dv and type(kw[dk]) is type(dv) and rnd.random() < 0.5:
+                del kw[dk]
+            elif dk not in kw and rnd.random() < 0.5:
+                kw[dk] = dv
+        items = list(kw.items())
+        rnd.shuffle(items)
+        return {'class': v['class'], 'kwargs': dict(items)}
+    if isinstance(v, list):
+        return [_vary_objs(x, rnd) for x in v]
+    if isinstance(v, dict):
+        items = [(k, _vary_objs(x, rnd)) for k, x in v.items()]
+        rnd.shuffle(items)
+        return dict(items)
+    return v
+
+
 class Renderer:
     """turns (world, root, render spec) into taskchain Config objects / files."""
 
@@ -483,6 +512,10 @@ class Renderer:
         for k, v in (render.get('ignored_values', {}) or {}).items():
             if k in self._ignored_keys(cfg):
                 vals[k] = v
+        if render.get('obj_var'):
+            import random
+            rnd = random.Random(render['obj_var'] * 1000 + ci)
+            vals = {k: _vary_objs(v, rnd) for k, v in vals.items()}
         items = list(vals.items())
         if render.get('perm'):
             items = _perm(items, render['perm'] + ci)
